@@ -88,6 +88,11 @@ def b_histories(z):
         peer = deflate_peer.Peer()
         m1 = peer.compress(b'context context context context ' * 8)
         m2 = peer.compress(b'context context again ' * 8)
+        # the client offers compression on every attempt, but THIS server does not negotiate it:
+        # nothing of a previously negotiated extension may survive
+        B['z-offered-not-negotiated'] = dict(hs={}, steps=[('raw', F(1, b'plain hello')), ('await_frames', 2), ('eof',)],
+                                             policy={'text': [['send_text', 'plain reply plain reply plain reply'],
+                                                              ['send_binary', b'\x00' * 300]]})
         B['z-exchange'] = dict(steps=[('raw', F(1, m1, rsv=4) + F(1, m2[:7], rsv=4, fin=0) + F(0, m2[7:])), ('await_frames', 3), ('eof',)],
                                policy={'text': [['send_text', 'client context client context ' * 6]],
                                        'poll#0': [['send_binary', b'\x00' * 500]]})
